@@ -161,7 +161,28 @@ func WaitPlan(ws *coercion.Workstream, id uuid.UUID, d time.Duration) (p *workfl
 	return WaitPlanP(ws, id, d, nil)
 }
 
+// WaitPlanL is WaitPlan with the progress of ONE log (one simulated process) instead of the process-wide counter: other
+// workers of the same case making progress must not hide a process that stands still.
+func WaitPlanL(ws *coercion.Workstream, id uuid.UUID, d time.Duration, l *plug.Log) (p *workflow.Plan, err error, ok bool) {
+	return waitPlan(ws, id, d, l.Novel)
+}
+
 func WaitPlanP(ws *coercion.Workstream, id uuid.UUID, d time.Duration, extra func() int64) (p *workflow.Plan, err error, ok bool) {
+	return waitPlan(ws, id, d, func() int64 {
+		n := plug.Progress.Load()
+		if extra != nil {
+			n += extra()
+		}
+		return n
+	})
+}
+
+// WaitPlanF: the caller supplies the progress counter.
+func WaitPlanF(ws *coercion.Workstream, id uuid.UUID, d time.Duration, progress func() int64) (p *workflow.Plan, err error, ok bool) {
+	return waitPlan(ws, id, d, progress)
+}
+
+func waitPlan(ws *coercion.Workstream, id uuid.UUID, d time.Duration, progress func() int64) (p *workflow.Plan, err error, ok bool) {
 	type res struct {
 		p   *workflow.Plan
 		err error
@@ -171,13 +192,6 @@ func WaitPlanP(ws *coercion.Workstream, id uuid.UUID, d time.Duration, extra fun
 		p, err := ws.Wait(context.Background(), id)
 		ch <- res{p, err}
 	}()
-	progress := func() int64 {
-		n := plug.Progress.Load()
-		if extra != nil {
-			n += extra()
-		}
-		return n
-	}
 	start := time.Now()
 	last, lastChange := progress(), start
 	tick := time.NewTicker(100 * time.Millisecond)
@@ -360,7 +374,7 @@ func Execute(c *Case) *Run {
 		go func(i int) {
 			defer wg.Done()
 			pr := &run.Plans[i]
-			p, err, ok := WaitPlan(ws, ids[i], wt)
+			p, err, ok := WaitPlanL(ws, ids[i], wt, l)
 			if !ok {
 				return
 			}
